@@ -1,6 +1,8 @@
 import PolyplyVerif.Driver.Common
 import PolyplyVerif.Generated.Tables
+import PolyplyVerif.Generated.SeqTables
 import PolyplyVerif.Model.Seq
+import PolyplyVerif.Model.SeqExt
 open Lean PolyplyVerif
 
 namespace PolyplyVerif.Driver.C12
@@ -50,6 +52,33 @@ def pairList (j : Json) : Except String (List (Nat × Nat)) := do
 def blockOfJson (j : Json) : Except String Block := do
   pure ⟨← strList (← j.getArrVal? 0), ← pairList (← j.getArrVal? 1)⟩
 
+def sgraphOfJson (j : Json) : Except String SGraph := do
+  let nodes ← (← j.getObjVal? "nodes").getArr?
+  let nodes ← nodes.toList.mapM fun n => do
+    pure ({ key := ← (← n.getArrVal? 0).getNat?, resname := ← (← n.getArrVal? 1).getStr?,
+            resid := ← optNatOfJson (← n.getArrVal? 2), seqid := ← optNatOfJson (← n.getArrVal? 3),
+            tags := ← attrsOfJson (← n.getArrVal? 4) } : SNode)
+  let edges ← (← j.getObjVal? "edges").getArr?
+  let edges ← edges.toList.mapM fun e => do
+    pure (⟨← (← e.getArrVal? 0).getNat?, ← (← e.getArrVal? 1).getNat?, ← attrsOfJson (← e.getArrVal? 2)⟩ : REdge)
+  pure ⟨nodes, edges⟩
+
+def sanswer (g : Option SGraph) : Json :=
+  match g with
+  | some g => okJson [("sgraph", sgraphToJson g)]
+  | none => errJson "reject"
+
+def probsOfJson (j : Json) : Except String (List (String × Bool)) := do
+  let arr ← j.getArr?
+  arr.toList.mapM fun e => do pure (← (← e.getArrVal? 0).getStr?, ← (← e.getArrVal? 1).getBool?)
+
+def probsToJson (ps : List (String × Bool)) : Json :=
+  Json.arr (ps.map fun (nm, w) => Json.arr #[Json.str nm, Json.bool w]).toArray
+
+def pairsToJson (l : List (Nat × Nat)) : Json := Json.arr (l.map fun (a, b) => Json.arr #[toJson a, toJson b]).toArray
+
+def textToJson (t : Text) : Json := Json.str (String.ofList t)
+
 def answer (g : Option RGraph) : Json :=
   match g with
   | some g => okJson [("graph", rgraphToJson g)]
@@ -64,7 +93,82 @@ def handle (j : Json) : Except String Json := do
   | "file" =>
     let ext ← (← j.getObjVal? "ext").getStr?
     let text ← (← j.getObjVal? "text").getStr?
-    pure (answer (fromSequenceFile Tabs.repo ext.toList text.toList))
+    -- dispatch through the GENERATED table `MetaMolecule.parsers` (theorem C12_dispatch: same as `fromSequenceFile`)
+    pure (answer (fromSequenceFileAny Tabs.repo ext.toList (.text text.toList)))
+  | "file_doc" =>
+    -- a node-link document under an arbitrary file suffix
+    let ext ← (← j.getObjVal? "ext").getStr?
+    let g ← sgraphOfJson j
+    pure (answer (fromSequenceFileAny Tabs.repo ext.toList (.doc ⟨g.nodes, g.edges⟩)))
+  | "dispatch" =>
+    let ext ← (← j.getObjVal? "ext").getStr?
+    pure (okJson [("parser", match parserFor ext.toList with | some p => Json.str p | none => Json.null)])
+  | "identify" =>
+    let comments ← textList (← j.getObjVal? "comments")
+    match identify comments with
+    | some f => pure (okJson [("flags", Json.arr #[Json.bool f.dna, Json.bool f.rna, Json.bool f.aa])])
+    | none => pure (errJson "reject")
+  | "parse_plain" =>
+    let lines ← textList (← j.getObjVal? "lines")
+    let fl ← j.getObjVal? "flags"
+    let f : Flags := ⟨← (← fl.getArrVal? 0).getBool?, ← (← fl.getArrVal? 1).getBool?, ← (← fl.getArrVal? 2).getBool?⟩
+    pure (sanswer (parsePlain Tabs.repo f lines))
+  | "macro" =>
+    let text ← (← j.getObjVal? "text").getStr?
+    match macroFields text.toList with
+    | none => pure (errJson "reject")
+    | some (nm, levels, bfact, probs) =>
+      let graph := match macroGraph text.toList with
+        | some b => Json.mkObj [("names", toJson b.names), ("edges", pairsToJson b.edges)]
+        | none => Json.null
+      pure (okJson [("name", Json.str nm), ("levels", toJson levels), ("bfact", toJson bfact),
+                    ("probs", probsToJson probs), ("graph", graph)])
+  | "render" =>
+    let what ← (← j.getObjVal? "what").getStr?
+    match what with
+    | "macro" =>
+      pure (okJson [("text", textToJson (renderMacro (← (← j.getObjVal? "name").getStr?) (← (← j.getObjVal? "levels").getNat?)
+        (← (← j.getObjVal? "bfact").getNat?) (← probsOfJson (← j.getObjVal? "probs"))))])
+    | "connect" =>
+      pure (okJson [("text", textToJson (renderConnect (← (← j.getObjVal? "i").getNat?, ← (← j.getObjVal? "j").getNat?,
+        ← pairList (← j.getObjVal? "items"))))])
+    | "mod" =>
+      pure (okJson [("text", textToJson (renderModification (← (← j.getObjVal? "s").getNat?, ← (← j.getObjVal? "name").getStr?)))])
+    | "tag" =>
+      pure (okJson [("text", textToJson (renderTag (← (← j.getObjVal? "s").getNat?, ← (← j.getObjVal? "attr").getStr?,
+        ← probsOfJson (← j.getObjVal? "probs"))))])
+    | _ => throw s!"unknown render {what}"
+  | "add_edges" =>
+    let g ← sgraphOfJson j
+    let edges ← (← j.getObjVal? "text").getStr?
+    pure (sanswer (addEdgesText g edges.toList (← (← j.getObjVal? "i").getNat?) (← (← j.getObjVal? "j").getNat?)))
+  | "apply_mods" =>
+    let g ← sgraphOfJson j
+    let mods ← textList (← j.getObjVal? "mods")
+    match applyModsText g mods with
+    | some g' => pure (okJson [("sgraph", sgraphToJson g'), ("terminal", toJson (terminalNodes g))])
+    | none => pure (errJson "reject")
+  | "apply_tags" =>
+    let g ← sgraphOfJson j
+    let tags ← textList (← j.getObjVal? "tags")
+    pure (sanswer (applyTagsText g tags))
+  | "genseq_cli" =>
+    let lib ← (← j.getObjVal? "lib").getArr?
+    let lib ← lib.toList.mapM fun e => do
+      pure (← (← e.getArrVal? 0).getStr?, (⟨← strList (← e.getArrVal? 1), ← pairList (← e.getArrVal? 2)⟩ : Block))
+    let seq ← match j.getObjVal? "seq" with
+      | .ok Json.null => pure none
+      | .ok s => (strList s).map some
+      | .error _ => pure none
+    let inp : GenSeqInput := {
+      fromFile := [], macroStrings := ← textList (← j.getObjVal? "macro_strings"), seq := seq,
+      connects := ← textList (← j.getObjVal? "connects"),
+      modifications := ← textList (← j.getObjVal? "modifications"),
+      tags := ← textList (← j.getObjVal? "tags") }
+    match genSeqCli lib (← textList (← j.getObjVal? "from_file")) inp with
+    | some g => pure (okJson [("sgraph", sgraphToJson g), ("readback", sgraphToJson (parseJson (nodeLinkData g))),
+                              ("graph", rgraphToJson (toMeta (parseJson (nodeLinkData g))))])
+    | none => pure (errJson "reject")
   | "json" =>
     let nodes ← (← j.getObjVal? "nodes").getArr?
     let nodes ← nodes.toList.mapM fun n => do
